@@ -52,8 +52,9 @@ def simplify(t):
             t = (t[0], _prune_phi_for_payload(t[1])) + tuple(t[2:])
         if t and t[0] == "field" and len(t) >= 3:
             base = _unref(t[1])
-            if base[0] == "agg" and isinstance(t[2], int) and len(base) > 3 and t[2] < len(base[3]) and base[1] in ("closure", "tuple"):
-                return base[3][t[2]]
+            idx = t[3] if len(t) > 3 else t[2]
+            if base[0] == "agg" and isinstance(idx, int) and len(base) > 3 and idx < len(base[3]) and base[1] in ("closure", "tuple"):
+                return base[3][idx]
         return t
     if isinstance(t, list):
         return [simplify(x) for x in t]
@@ -119,17 +120,36 @@ def leaves(W, bv, t, bodies=None, depth=0):
         if vn == "Some" and len(t[3]) == 1:
             return [("some", t[3][0])]
         return [("other", t)]
+    if k == "field" and (t[3] if len(t) > 3 else t[2]) == 0 and _unref(t[1])[0] == "downcast" and _unref(t[1])[2] in ("Continue", "Ok"):
+        # `opt_of_result.transpose()?`  (Option<Result<T,E>> -> Option<T>): the leaves of the option, each payload's Ok value
+        inner = _unref(_unref(t[1])[1])
+        if inner[0] == "call" and lib.norm(inner[1]) == "std::ops::Try::branch" and inner[2]:
+            inner = _unref(inner[2][0])
+        if inner[0] == "call" and lib.norm(inner[1]).endswith("::transpose") and inner[2]:
+            out = []
+            for l in leaves(W, bv, inner[2][0], bodies, depth + 1):
+                out.append(("some", ("field", ("downcast", l[1], "Ok"), "0", 0)) if l[0] == "some" else l)
+            return out
     if k == "call":
         callee = lib.norm(t[1])
         if callee.endswith("FromResidual::from_residual"):
             return [("none",)]
+        if callee == "core::bool::<impl bool>::then" or callee.endswith("bool>::then") or callee.endswith("bool::then"):
+            clo = _closure_of(t[2][1]) if len(t[2]) == 2 else None
+            if clo is not None and clo[2] in W.by_id:
+                cb = W.bv(clo[2])
+                if cb not in bodies:
+                    bodies.append(cb)
+                return [("none",), ("some", simplify(lib.subst_params(cb.trace_local(0), [clo])))]
+        if callee in ("core::bool::<impl bool>::then_some",) or callee.endswith("bool::then_some"):
+            return [("none",), ("some", t[2][1])]
         if callee in lib.WRAPPERS and callee.split("::")[-1] in ("clone", "into", "from") and t[2]:
             return leaves(W, bv, t[2][0], bodies, depth + 1)
         if callee in (OPTION + "and_then", OPTION + "map") and len(t[2]) == 2:
             clo = _closure_of(t[2][1])
             if clo is not None and clo[2] in W.by_id:
                 cb = W.bv(clo[2])
-                payload = ("field", ("downcast", t[2][0], "Some"), 0)
+                payload = ("field", ("downcast", t[2][0], "Some"), "0", 0)
                 body = simplify(lib.subst_params(cb.trace_local(0), [clo, payload]))
                 if cb not in bodies:
                     bodies.append(cb)
@@ -295,3 +315,18 @@ def _inline_all(W, bv, t, keep=lambda name: False, _stack=(), _depth=0):
             return simplify(lib.subst_params(body, args))
         return (t[0], t[1], args) + tuple(t[3:])
     return tuple(_inline_all(W, bv, x, keep, _stack, _depth + 1) if isinstance(x, (tuple, list)) else x for x in t)
+
+
+def option_desc(W, bv, t, names=None):
+    """Canonical description of an Option-valued term by its leaves: 'None|Some{<payload>}' (sorted, duplicates folded),
+    the same for an if/else, a match, `cond.then(|| ..)`, `x.map(..)` .."""
+    from . import terms
+    out = set()
+    for l in leaves(W, bv, t):
+        if l[0] == "none":
+            out.add("None")
+        elif l[0] == "some":
+            out.add("Some{%s}" % terms.render(bv, l[1], W, names or {}))
+        else:
+            out.add("?" + terms.render(bv, l[1], W, names or {}))
+    return "|".join(sorted(out))
